@@ -22,6 +22,8 @@ pub struct Wants {
 pub struct AuditRes {
     pub dangling: Vec<String>,
     pub structural: Vec<String>,
+    /// per inner list: (name, node addresses registered in the index, node addresses linked in the chain)
+    pub owners: Vec<(String, Vec<usize>, Vec<usize>)>,
 }
 
 #[derive(Clone, Debug, Default)]
@@ -94,6 +96,10 @@ pub trait Driver: Sync + Send {
     fn cfg(&self) -> &Cfg;
     fn state(&self, hist: &[Op], want: &Wants) -> StateRes;
     fn trans(&self, hist: &[Op], op: Op, want: &Wants) -> TransRes;
+    /// how many executions of the real code one `state`/`trans` call stands for (lock-step legs)
+    fn legs(&self) -> u64 {
+        1
+    }
 }
 
 pub struct SubjDriver<S> {
@@ -112,6 +118,7 @@ fn audit_of<S: Subject>(c: &S) -> AuditRes {
     match catch_unwind(AssertUnwindSafe(|| c.audit(true))) {
         Ok(l) => {
             for (name, a) in l {
+                r.owners.push((name.to_string(), a.index_nodes.clone(), a.linked_nodes.clone()));
                 for d in a.dangling {
                     r.dangling.push(format!("{}: {}", name, d));
                 }
@@ -139,6 +146,27 @@ fn snap_of<S: Subject>(c: &S) -> Snap {
     alloc::untracked(|| s.clone_full())
 }
 
+/// digest of the structural audit's complaints (0 = well-formed); see `Snap.shape`
+fn shape_of(a: &AuditRes) -> u64 {
+    if a.structural.is_empty() {
+        return 0;
+    }
+    let mut h: u64 = 0xcbf2_9ce4_8422_2325;
+    for s in &a.structural {
+        for b in s.bytes().chain([0u8]) {
+            h ^= b as u64;
+            h = h.wrapping_mul(0x0000_0100_0000_01b3);
+        }
+    }
+    h | 1
+}
+
+fn snap_shaped<S: Subject>(c: &S, a: &AuditRes) -> Snap {
+    let mut s = snap_of(c);
+    s.shape = shape_of(a);
+    s
+}
+
 impl Snap {
     pub fn clone_full(&self) -> Snap {
         let mut s = self.clone();
@@ -147,7 +175,35 @@ impl Snap {
     }
 }
 
+thread_local! {
+    static NOISE: std::cell::RefCell<Vec<Vec<u8>>> = const { std::cell::RefCell::new(Vec::new()) };
+}
+
+/// Address noise (Cfg.addr_noise): unrelated blocks of node-like sizes are allocated and some freed
+/// again, outside the registry's accounting, so that the cache's own allocations land elsewhere.
+fn noise(level: u8, i: usize) {
+    if level == 0 {
+        return;
+    }
+    alloc::untracked(|| {
+        NOISE.with(|n| {
+            let mut n = n.borrow_mut();
+            let l = level as usize;
+            let k = (i * 7 + l * 3) % 5 + 1;
+            for j in 0..k {
+                n.push(Vec::with_capacity([24usize, 56, 72, 40, 128, 16, 96][(i + j + l) % 7]));
+            }
+            if (i + l) % 2 == 0 && n.len() > 3 {
+                let len = n.len();
+                n.swap_remove(len / 2);
+                n.swap_remove(0);
+            }
+        })
+    });
+}
+
 fn begin(want: &Wants) {
+    alloc::untracked(|| NOISE.with(|n| n.borrow_mut().clear()));
     let _ = take_cb_log();
     let _ = panics::take_last();
     if want.track_alloc {
@@ -170,9 +226,11 @@ fn finish(want: &Wants, exec: &mut ExecReport) {
 
 /// build + replay; Err = the history could not be replayed
 fn replay<S: Subject>(cfg: &Cfg, hist: &[Op]) -> Result<S, String> {
+    noise(cfg.addr_noise, 0);
     let mut c = S::build(cfg)?;
     let mut out = Vec::new();
     for (i, h) in hist.iter().enumerate() {
+        noise(cfg.addr_noise, i + 1);
         match catch_unwind(AssertUnwindSafe(|| c.apply(*h, &mut out))) {
             Ok(Ret::NotApplicable) => return Err(format!("history step {} ({:?}) is not applicable to {:?}", i, h, cfg.kind)),
             Ok(_) => {}
@@ -320,7 +378,7 @@ impl<S: Subject> Driver for SubjDriver<S> {
                 Ok(mut c) => {
                     res.audit = audit_of(&c);
                     if res.audit.dangling.is_empty() {
-                        let s0 = snap_of(&c);
+                        let s0 = snap_shaped(&c, &res.audit);
                         if want.probe {
                             let p = c.probe(&self.cfg);
                             res.probe = alloc::untracked(|| p.clone());
@@ -333,7 +391,7 @@ impl<S: Subject> Driver for SubjDriver<S> {
                             }
                             res.audit_after_obs = audit_of(&c);
                             if res.audit_after_obs.dangling.is_empty() {
-                                res.snap_after_obs = Some(snap_of(&c));
+                                res.snap_after_obs = Some(snap_shaped(&c, &res.audit_after_obs));
                             }
                         }
                         if want.iters && res.audit_after_obs.dangling.is_empty() {
@@ -344,7 +402,10 @@ impl<S: Subject> Driver for SubjDriver<S> {
                                 }
                                 Err(_) => res.iter_problems = alloc::untracked(|| vec![format!("iterator check panicked: {}", panics::take_last())]),
                             }
-                            res.snap_after_iters = Some(snap_of(&c));
+                            let a3 = audit_of(&c);
+                            if a3.dangling.is_empty() {
+                                res.snap_after_iters = Some(snap_shaped(&c, &a3));
+                            }
                         }
                         res.exec.conservation = conservation(&snap_of(&c));
                         drop_caught(c, &mut res.exec);
@@ -375,6 +436,7 @@ impl<S: Subject> Driver for SubjDriver<S> {
                 Ok(mut c) => {
                     let _ = take_cb_log();
                     let mut out = Vec::new();
+                    noise(self.cfg.addr_noise, hist.len() + 1);
                     let ret = apply_caught(&mut c, op, &mut out);
                     res.cb_log = take_cb_log();
                     res.out_serials = alloc::untracked(|| out.clone());
@@ -383,7 +445,7 @@ impl<S: Subject> Driver for SubjDriver<S> {
                     let panicked = matches!(ret, Ret::Panic(_));
                     res.ret = Some(ret);
                     if res.audit.dangling.is_empty() {
-                        let post = snap_of(&c);
+                        let post = snap_shaped(&c, &res.audit);
                         if !panicked {
                             res.exec.conservation = conservation(&post);
                         }
@@ -399,7 +461,7 @@ impl<S: Subject> Driver for SubjDriver<S> {
                             drop(out2);
                             let a2 = audit_of(&c);
                             if a2.dangling.is_empty() {
-                                res.post_after_obs = Some(snap_of(&c));
+                                res.post_after_obs = Some(snap_shaped(&c, &a2));
                             }
                         }
                         if want.iters && !panicked && res.audit.structural.is_empty() {
@@ -475,7 +537,7 @@ pub struct MultiDriver {
 impl MultiDriver {
     pub fn new(cfg: &Cfg, hashers: &[crate::hashers::HKind]) -> MultiDriver {
         let base = make_driver(cfg);
-        let legs = hashers
+        let mut legs: Vec<(String, Box<dyn Driver>)> = hashers
             .iter()
             .map(|h| {
                 let mut c = cfg.clone();
@@ -484,6 +546,14 @@ impl MultiDriver {
                 (format!("{:?}", h), make_driver(&c))
             })
             .collect();
+        if hashers.len() > 1 && cfg.addr_noise == 0 {
+            // same hasher, different heap layout: every node (and every table) at another address
+            for level in [1u8, 2] {
+                let mut c = cfg.clone();
+                c.addr_noise = level;
+                legs.push((format!("{:?} with the heap laid out differently (pattern {})", cfg.hasher, level), make_driver(&c)));
+            }
+        }
         MultiDriver { base, legs }
     }
 }
@@ -491,6 +561,9 @@ impl MultiDriver {
 impl Driver for MultiDriver {
     fn cfg(&self) -> &Cfg {
         self.base.cfg()
+    }
+    fn legs(&self) -> u64 {
+        1 + self.legs.len() as u64
     }
     fn state(&self, hist: &[Op], want: &Wants) -> StateRes {
         let mut r = self.base.state(hist, want);
